@@ -1816,6 +1816,28 @@ func (*VMValue).AttrGet
     invariant 0 <= depth && depth <= 64 && p1x != nil && ctx != nil
     decreases 64 - depth
 
+// ToString / ToRepr render a value from a clean slate: the cycle guard handed to the recursive printer is a new object with
+// a new table — what was printed earlier cannot change what is printed now (C13: a template hole shows its value; C02).
+func (*VMValue).ToString
+  props C13 C02
+  nilrecv
+  ghost at precall 1 v.toStringRaw: ghostAssert(arg0 != nil && isFresh(arg0) && arg0.exists != nil && isFresh(arg0.exists))
+
+func (*VMValue).ToRepr
+  props C13 C02
+  nilrecv
+  ghost at precall 1 v.toReprRaw: ghostAssert(arg0 != nil && isFresh(arg0) && arg0.exists != nil && isFresh(arg0.exists))
+
+func (*VMValue).toStringRaw
+  props C13 C02
+  nilrecv
+  noverify
+
+func (*VMValue).toReprRaw
+  props C13 C02
+  nilrecv
+  noverify
+
 // Length, GetSlice: panic-freedom of the slicing read operator (C01) — the bounds handed to the Go slice
 // expressions lie inside the sliced value for every start, end and receiver.
 func (*VMValue).Length
